@@ -232,7 +232,7 @@ DEFAULT_CFG: dict[str, Any] = {
     "workers_max": 4,
     "fan_max": 3,
     "p_retry": 30, "p_fail": 25, "p_sync": 10, "p_stream": 30, "p_target": 20,
-    "p_collect": 0, "p_wait": 0, "p_unhandled": 0, "p_external": 0, "p_ret_none": 30,
+    "p_collect": 0, "p_wait": 0, "p_unhandled": 0, "p_external": 0, "p_ret_none": 30, "p_ask": 0,
     "retry_delays": [0, 0, 1, 2],
     "grid": [0, 0, 1, 1, 2, 3, 5],   # seconds; 0 = no suspension at all
     "emit_budget": 40,
@@ -289,6 +289,7 @@ def gen_spec(tape, cfg: dict[str, Any]) -> dict:
         sync = n != "s0" and tape.chance(cfg["p_sync"], 100, "sync")
         pol = gen_policy(tape, cfg) if tape.chance(cfg["p_retry"], 100, "retry?") else None
         scripts = {}
+        asks = False
         for t in accepts[n]:
             sc: list = []
             if not sync:
@@ -317,10 +318,13 @@ def gen_spec(tape, cfg: dict[str, Any]) -> dict:
                 sc.append(("work",))
             if driver == "result" and stop_owner and n in stop_owner and t == types[-1]:
                 sc.append(("ret", "stop"))
+            elif ret is None and tape.chance(cfg["p_ask"], 100, "ask?"):
+                sc.append(("ret", "Ask0"))
+                asks = True
             else:
                 sc.append(("ret", ret))
             scripts[t] = sc
-        ann = sorted(set(produces[n]))
+        ann = sorted(set(produces[n]) | ({"Ask0"} if asks else set()))
         steps.append({"name": n, "accepts": accepts[n], "workers": workers, "sync": sync,
                       "retry": pol, "role": "step", "scripts": scripts, "returns": ann,
                       "stop": bool(driver == "result" and stop_owner and n in stop_owner)})
@@ -417,11 +421,20 @@ class EngineWorld:
         self.violations: list[dict] = []
         self.publish_hooks: list = []
         self.tick_hooks: list = []
+        self.stable_checks: list = []
         self.states: set = set()
         self.ended = False
         boot.reset_ids()
         self.loop.executor_delay = lambda: float(self.tape.choice(self.cfg["grid"], "exec"))
+        self._last_stable_seq = -1
+        self.loop.stable_hooks.append(self._on_stable)
         _CURRENT_WORLD[0] = self
+
+    def _on_stable(self) -> None:
+        if self.trace.seq != self._last_stable_seq:
+            self._last_stable_seq = self.trace.log("stable")
+        for h in self.stable_checks:
+            h()
 
     # -- bookkeeping ------------------------------------------------------
     def uid(self) -> int:
@@ -685,6 +698,27 @@ def _hashable(u: Any) -> Any:
 # standard scenario: one run of a generated program, to result or quiesce-then-finish
 
 
+async def external_sender(world: EngineWorld, spec: dict, handler) -> None:
+    """Sends 1-3 events from outside at tape-chosen instants (accepted types, or the never-accepted X0)."""
+    n = world.tape.rng_int(1, 3, "ext.n")
+    pool = list(spec["types"]) + (["X0"] if world.cfg.get("ext_unhandled", True) else [])
+    for _ in range(n):
+        d = world.tape.choice(world.cfg["grid"], "ext.delay")
+        if d:
+            await asyncio.sleep(d)
+        if handler.is_done():
+            return
+        tname = world.tape.choice(pool, "ext.type")
+        e = world.mk(tname, -1, "ext")
+        world.trace.log("emit", uid=e.uid, ev=tname, by="ext", via="ext", target=None, parent=-1, inv=0)
+        world.fault("external-send")
+        world.probe("external-send")
+        try:
+            handler.ctx.send_event(e)
+        except Exception as ex:  # noqa: BLE001
+            world.trace.log("ext-send-error", exc=type(ex).__name__)
+
+
 async def drive_standard(world: EngineWorld, spec: dict, *, extra=None) -> dict:
     """Runs the program; returns outcome info. `extra(world, wf, handler)` may start
     additional driver tasks (external sends, responders)."""
@@ -697,6 +731,8 @@ async def drive_standard(world: EngineWorld, spec: dict, *, extra=None) -> dict:
     tasks = []
     if extra is not None:
         tasks = extra(world, wf, handler) or []
+    if world.tape.chance(world.cfg["p_external"], 100, "ext?"):
+        tasks.append(asyncio.ensure_future(external_sender(world, spec, handler)))
     outcome: dict[str, Any] = {"handler": handler, "consumer": consumer, "wf": wf}
     if spec["driver"] == "finish":
         # wait for either quiescence or early end (failure etc.)
